@@ -34,7 +34,12 @@ def run_case_for(tag, case, reuse=12):
         p = mine[0]
         return dict(res, verdict="violated", what=p["what"], after_fault=p["after_fault"], after_block=p["after_block"], witness={"config_colang": app.co, "config_yaml": app.yaml, "case": sample, "turn": p["t"], "problem": p["what"], "detail": p["detail"], "all_problems": [(q["tag"], q["t"], q["what"]) for q in problems]})
     if not monitor_reached:
-        expected_calls, _ = rc.expected_action_calls(case)
+        # rail calls the sequential model expects (a dialog action is not a rail)
+        stub = rc._Stub(case["cid"], rc.unpack_V(case))
+        expected_calls = 0
+        for t in range(case["turns"]):
+            mt = rails.model_turn(spec, stub, t, "x", case["kinds"][t], (case.get("opts") or [None] * case["turns"])[t])
+            expected_calls += len(mt["exp_in"]) + (len(mt["exp_out"]) if mt["in_blocked"] is None else 0)
         if expected_calls == 0 and stats["turns_judged"] > 0:
             # per-call options switched off every configured rail of this conversation: nothing to observe
             return dict(res, verdict="inconclusive", reason="expected:no-rail-call-expected")
